@@ -229,7 +229,9 @@ pub fn write_text(path: &std::path::Path, body: &str, gzip: bool) -> std::io::Re
 
 fn edge_len(rng: &mut Rng, coords: &[(f32, f32)], s: usize, d: usize, metric: bool) -> f64 {
     if metric {
-        let h = hav_m(coords[s], coords[d]);
+        // the harness's own f64 great circle, not the repository's helper: the lower bound that the search's
+        // heuristic must respect is a fact about the coordinates, whatever the code under test computes
+        let h = hav_m_f64((coords[s].0 as f64, coords[s].1 as f64), (coords[d].0 as f64, coords[d].1 as f64));
         let m = if rng.chance(0.3) { rng.frange(0.001, 0.05) } else { rng.frange(0.05, 2.0) };
         // +5 m absorbs the f32 noise of the repo's haversine so admissibility is a fact
         (h * (1.0 + m) + 5.0 + rng.frange(0.0, 20.0)).max(5.0)
@@ -244,7 +246,9 @@ pub fn gen_net(rng: &mut Rng, p: &NetParams) -> RefNet {
     // coordinates
     let cx = rng.frange(-120.0, -70.0) as f32;
     let cy = rng.frange(25.0, 48.0) as f32;
-    let span = rng.frange(0.05, 0.5) as f32;
+    // city-sized networks mostly; one in eight spans many degrees (errors of a great-circle computation that grow with
+    // the latitude difference only show there)
+    let span = if rng.chance(0.125) { rng.frange(2.0, 25.0) as f32 } else { rng.frange(0.05, 0.5) as f32 };
     let grid_layout = rng.chance(0.3);
     let side = (n as f64).sqrt().ceil() as usize;
     let coords: Vec<(f32, f32)> = (0..n)
